@@ -2,25 +2,41 @@ package main
 
 import (
 	"fmt"
+	"math"
 
 	"github.com/tdewolff/canvas"
+	"verif/internal/oracle"
 )
 
 func main() {
-	for _, m := range []canvas.Matrix{
-		canvas.Identity.Rotate(30).Scale(2, 1),
-		canvas.Identity.Scale(2, 1).Rotate(30),
-		canvas.Identity.Shear(0.5, 0).Translate(3, -2),
-		canvas.Identity.Scale(1, -1).Rotate(30),
-		canvas.Identity.Rotate(90),
-		canvas.Identity.Scale(-1, -1),
-		canvas.Identity.Translate(3, -2),
-	} {
-		tx, ty, r3, sx, sy, r6 := m.Decompose()
-		docForm := canvas.Identity.Translate(tx, ty).Rotate(r6).Scale(sx, sy).Rotate(r3)  // doc: 3rd=theta, 6th=phi; Translate.Rotate(phi).Scale.Rotate(theta)
-		altForm := canvas.Identity.Translate(tx, ty).Rotate(r3).Scale(sx, sy).Rotate(r6)
-		fmt.Println(m, "decompose", tx, ty, r3, sx, sy, r6)
-		fmt.Println("   doc formula equals m:", docForm.Equals(m), " swapped formula equals m:", altForm.Equals(m))
-		fmt.Printf("   ToSVG(10)=%q T=%v\n", m.ToSVG(10), m.T())
+	P := func(x, y float64) oracle.Pt { return oracle.Pt{X: x, Y: y} }
+	s := oracle.MkArc(P(0.5, -1), 2, 1, 90, false, false, P(2.5, 0))
+	sps := []oracle.Subpath{oracle.Chain(false, s)}
+	cm := canvas.Identity.Scale(0.001, 1).Rotate(30)
+	am := oracle.AffScale(0.001, 1).After(oracle.AffRotate(30))
+	od := canvas.NewPathFromData(oracle.PathData(sps)).Transform(cm).Data()
+	out, _ := oracle.Decode(od)
+	o := out[0].Segs[0]
+	lam := oracle.ArcLambda(o.P0, o.Rx, o.Ry, o.Phi, o.P1)
+	k := math.Sqrt(lam)
+	o.Rx, o.Ry = o.Rx*k, o.Ry*k
+	q := am.Apply(oracle.SegAt(s, 16.0/24))
+	n := 64
+	best, bi := math.Inf(1), 0
+	for i := 0; i <= 4000000; i++ {
+		if d := q.Dist(oracle.SegAt(o, float64(i)/4000000)); d < best {
+			best, bi = d, i
+		}
+	}
+	tstar := float64(bi) / 4000000
+	fmt.Println("t*", tstar, "interval", tstar*float64(n), best)
+	for i := int(tstar*float64(n)) - 2; i <= int(tstar*float64(n))+3; i++ {
+		p := oracle.SegAt(o, float64(i)/float64(n))
+		fmt.Println(i, p, q.Dist(p))
+	}
+	a, b := math.Floor(tstar*float64(n))/float64(n), (math.Floor(tstar*float64(n))+1)/float64(n)
+	for k := 0; k <= 10; k++ {
+		t := a + (b-a)*float64(k)/10
+		fmt.Println("   ", t, q.Dist(oracle.SegAt(o, t)))
 	}
 }
